@@ -26,11 +26,11 @@ def BddSideOK (S : Int → MAsg → Bool) (L : Nat → Nat) (u : Nat) (umap : Li
     ∃ (x : Int) (r : Int), umap.lookup x.natAbs = some r ∧ k = (if x > 0 then r else -r) ∧ x ≠ 0 ∧
       var.level < L x.natAbs ∧ ∀ α, α var.level = i → S x α = S (u : Int) α
 
-theorem lookup_filter_ne (u x : Nat) (hx : x ≠ u) :
+theorem mLookup_filter_ne (u x : Nat) (hx : x ≠ u) :
     ∀ l : List (Nat × Int), (l.filter (fun p => p.1 ≠ u)).lookup x = l.lookup x
   | [] => rfl
   | (a, b) :: rest => by
-    have ih := lookup_filter_ne u x hx rest
+    have ih := mLookup_filter_ne u x hx rest
     by_cases ha : a = u
     · have hxa : (x == a) = false := by rw [ha]; simpa using hx
       have hf : ((a, b) :: rest).filter (fun p => p.1 ≠ u) = rest.filter (fun p => p.1 ≠ u) := by
@@ -49,7 +49,7 @@ theorem lookup_cons_filter (u : Nat) (r : Int) (umap : List (Nat × Int)) (x : N
   · subst hx; simp [List.lookup_cons]
   · have h1 : (x == u) = false := by simpa using hx
     simp only [List.lookup_cons, h1, hx, if_false]
-    exact lookup_filter_ne u x hx umap
+    exact mLookup_filter_ne u x hx umap
 
 /-- the MDD half of `bdd_to_mdd`: if every BDD-side step delivers `BddSideOK`, the final `umap`
 maps every kept BDD node to an MDD reference with the intended meaning, and the MDD manager
@@ -159,8 +159,8 @@ theorem b2mLoop_partial (S : Int → MAsg → Bool) (L : Nat → Nat)
             exact ⟨i0, i1, F.ext.trans i2, i3⟩
 
 theorem assertConsistent_state (m : Mgr) (r : Except Err Unit) (m' : Mgr)
-    (h : assertConsistent m = (r, m')) : m' = m := by
-  unfold assertConsistent at h
+    (h : bddAssertConsistent m = (r, m')) : m' = m := by
+  unfold bddAssertConsistent at h
   dsimp only at h
   split at h
   · cases h; rfl
